@@ -363,7 +363,20 @@ def _cleanup(target):
 def replay(case):
     """Plain re-run of one recorded execution (no explorer)."""
     import traceback
-    r = run_c09(case['params'], case['choices'])
+    lines = case['params'].get('lines')
+    loop_codes = dsched.loop_bound_code()
+    line_codes = []
+    if lines is True:
+        line_codes = line_level_code()
+    if lines == 'loop-bound-only':
+        dsched.enable_line_points([], foreign_only=loop_codes)
+    elif lines:
+        dsched.enable_line_points(line_codes, foreign_only=loop_codes)
+    try:
+        r = run_c09(case['params'], case['choices'])
+    finally:
+        if lines:
+            dsched.disable_line_points(line_codes + loop_codes)
     return {'outcome': r['outcome'], 'violations': [v[0] for v in r['viol']], 'err': r.get('err'),
             'points': len(r['points']), 'trace': LAST_TB[:]}
 
@@ -408,21 +421,24 @@ def harnesses(t):
     return hs
 
 
+def line_level_code():
+    names = {'_chunk_done', '_stream_files', '_chunk_producer', '_worker', '_download_chunk', '_write_chunk_ref'}
+    line_codes = dsched.find_code(R.Repository.snapshot.__code__, names) + \
+        dsched.find_code(R.Repository.restore.__code__, names)
+    if len(line_codes) < 4:
+        # the closures were renamed or restructured: fall back to every function nested in the two commands
+        line_codes = dsched.find_code(R.Repository.snapshot.__code__, None) + \
+            dsched.find_code(R.Repository.restore.__code__, None)
+    wfp = getattr(R.Repository, '_write_file_part', None)
+    if wfp is not None:
+        line_codes.append(wfp.__code__)
+    return line_codes
+
+
 def main():
     t = common.tier()
     chk = common.Check(PID, 'model_checking')
-    line_codes = []
-    if True:
-        names = {'_chunk_done', '_stream_files', '_chunk_producer', '_worker', '_download_chunk', '_write_chunk_ref'}
-        line_codes = dsched.find_code(R.Repository.snapshot.__code__, names) + \
-            dsched.find_code(R.Repository.restore.__code__, names)
-        if len(line_codes) < 4:
-            # the closures were renamed or restructured: fall back to every function nested in the two commands
-            line_codes = dsched.find_code(R.Repository.snapshot.__code__, None) + \
-                dsched.find_code(R.Repository.restore.__code__, None)
-        wfp = getattr(R.Repository, '_write_file_part', None)
-        if wfp is not None:
-            line_codes.append(wfp.__code__)
+    line_codes = line_level_code()
     # loop-bound asyncio primitives: their lines are points only for threads that have no business calling them
     loop_codes = dsched.loop_bound_code()
     plan = []
